@@ -8,6 +8,7 @@ import (
 	"crypto/ecdsa"
 	"crypto/elliptic"
 	"crypto/md5"
+	crand "crypto/rand"
 	"crypto/rsa"
 	"crypto/sha1"
 	"crypto/sha256"
@@ -15,10 +16,13 @@ import (
 	"crypto/x509"
 	"crypto/x509/pkix"
 	"encoding/hex"
+	"encoding/pem"
 	"errors"
 	"fmt"
 	"math/big"
 	"math/rand"
+	"os"
+	"path/filepath"
 	"strings"
 	"time"
 
@@ -26,7 +30,45 @@ import (
 	"verifharness/core"
 )
 
+// the harness-made "system" CA: crypto/x509's system pool is pointed at it before anything can load the host's
+// roots, so that an attestor which falls back to the system trust store is observable
+var (
+	sysKey  *rsa.PrivateKey
+	sysCert *x509.Certificate
+	sysDir  string
+)
+
+func setupSystemRoots() {
+	var err error
+	sysDir, err = os.MkdirTemp("", "verif-c06-sys-")
+	if err != nil {
+		panic(err)
+	}
+	sysKey, err = rsa.GenerateKey(crand.Reader, 2048)
+	if err != nil {
+		panic(err)
+	}
+	t := &x509.Certificate{SerialNumber: big.NewInt(77), Subject: pkix.Name{CommonName: "harness system-trusted CA"},
+		NotBefore: time.Now().Add(-time.Hour), NotAfter: time.Now().Add(24 * time.Hour), IsCA: true, BasicConstraintsValid: true,
+		KeyUsage: x509.KeyUsageCertSign | x509.KeyUsageDigitalSignature}
+	der, err := x509.CreateCertificate(crand.Reader, t, t, &sysKey.PublicKey, sysKey)
+	if err != nil {
+		panic(err)
+	}
+	sysCert, _ = x509.ParseCertificate(der)
+	file := filepath.Join(sysDir, "system-roots.pem")
+	if err := os.WriteFile(file, pem.EncodeToMemory(&pem.Block{Type: "CERTIFICATE", Bytes: der}), 0o600); err != nil {
+		panic(err)
+	}
+	empty := filepath.Join(sysDir, "empty-dir")
+	_ = os.Mkdir(empty, 0o755)
+	os.Setenv("SSL_CERT_FILE", file)
+	os.Setenv("SSL_CERT_DIR", empty)
+}
+
 func main() {
+	setupSystemRoots()
+	defer os.RemoveAll(sysDir)
 	core.Main("C06", &core.Driver{
 		Imports:   "From Verif Require Import Lib.Base Lib.Bytes Model.Pkcs1 Model.C06Check.",
 		CheckFn:   "C06Check.check",
@@ -527,6 +569,76 @@ func run(c *core.Ctx) {
 			bad := append([]byte(nil), em...)
 			bad[len(bad)-1] ^= 1
 			emitEM("exponent-damaged", d, int(hs.rsaAlgo), body, bad, fmt.Sprintf("e=%d, last digest bit flipped", exp))
+		}
+	}
+
+	// (2'') the attestor as the application builds it, from two root files: whatever files are named (also none, a
+	// missing one, an empty one, one without a certificate), an attestor that IS returned accepts only device
+	// certificates chaining to the certificates in those files - never the host's trust store
+	{
+		dir, err := os.MkdirTemp("", "verif-c06-roots-")
+		if err == nil {
+			pemOf := func(cr *x509.Certificate) []byte {
+				return pem.EncodeToMemory(&pem.Block{Type: "CERTIFICATE", Bytes: cr.Raw})
+			}
+			write := func(name string, data []byte) string {
+				p := filepath.Join(dir, name)
+				_ = os.WriteFile(p, data, 0o600)
+				return p
+			}
+			rootFile, otherFile := write("root.pem", pemOf(root)), write("other.pem", pemOf(other))
+			emptyFile, textFile := write("empty.pem", nil), write("text.pem", []byte("no certificate here\n"))
+			missing := filepath.Join(dir, "missing.pem")
+			kSys := genRSA(r, 1024)
+			serial++
+			tSys := &x509.Certificate{SerialNumber: big.NewInt(serial), Subject: pkix.Name{CommonName: "f9 issued by the system-trusted CA"},
+				NotBefore: okNB, NotAfter: okNA, KeyUsage: x509.KeyUsageCertSign | x509.KeyUsageDigitalSignature, IsCA: true, BasicConstraintsValid: true}
+			devSys := mustCert(x509.CreateCertificate(rd, tSys, sysCert, &kSys.PublicKey, sysKey))
+			slotFor := func(k *rsa.PrivateKey) *x509.Certificate {
+				body := newBody()
+				kk := (k.N.BitLen() + 7) / 8
+				em := buildEM(kk, hashes[1].withNul, digestsOf(body)["SHA256"])
+				m := new(big.Int).SetBytes(em)
+				sg := new(big.Int).Exp(m, k.D, k.N)
+				return &x509.Certificate{SignatureAlgorithm: x509.SHA256WithRSA, RawTBSCertificate: body, Signature: leftPad(sg.Bytes(), kk)}
+			}
+			pairs := [][2]string{{"", ""}, {rootFile, ""}, {"", rootFile}, {rootFile, rootFile}, {rootFile, otherFile}, {otherFile, otherFile},
+				{missing, rootFile}, {rootFile, missing}, {emptyFile, rootFile}, {rootFile, emptyFile}, {textFile, textFile}, {emptyFile, emptyFile}, {dir, dir}}
+			for _, pr := range pairs {
+				in := map[string]interface{}{"piv_root_file": filepath.Base(pr[0]), "u2f_root_file": filepath.Base(pr[1])}
+				var at *yubiattest.Attestor
+				var cerr error
+				if p, msg := core.Guard(func() { at, cerr = yubiattest.NewAttestor(pr[0], pr[1]) }); p {
+					c.Native("panic in yubiattest.NewAttestor: "+msg, in)
+					continue
+				}
+				if cerr != nil || at == nil {
+					c.Stat("attestor-construction-refused")
+					c.NativeCheck(1)
+					continue
+				}
+				c.Stat("attestor-constructed")
+				var e1, e2 error
+				if p, msg := core.Guard(func() {
+					e1 = at.Attest(devSys, slotFor(kSys))
+					e2 = at.Attest(good[0].cert, slotFor(good[0].rsaKey))
+				}); p {
+					c.Native("panic in Attest on an attestor built from root files: "+msg, in)
+					continue
+				}
+				rootNamed := pr[0] == rootFile || pr[1] == rootFile
+				switch {
+				case e1 == nil:
+					c.Native("an attestor built from the named root files attests a device certificate that chains only to the host's trust store", in)
+				case rootNamed && e2 != nil:
+					c.Native("an attestor built from files that contain the root refuses a genuine device certificate: "+errText(e2), in)
+				case !rootNamed && e2 == nil:
+					c.Native("an attestor built from files that do not contain the root attests a device certificate issued by it", in)
+				default:
+					c.NativeCheck(1)
+				}
+			}
+			os.RemoveAll(dir)
 		}
 	}
 
